@@ -10,6 +10,9 @@ The part of x/crosschain/keeper the property is about, as a state machine:
 * `Attest`: the voter's event nonce must be its last nonce + 1; the vote is appended to the attestation stored under the
   key `nonce ‖ H(path claim)` (created with the first voter's claim if absent); if that attestation is not yet observed
   and the nonce is the next one, `TryAttestation(att, claim)` runs **with the claim object of this voter**;
+* which `TryAttestation(att, claim)` calls `Attest` makes — with which attestation and which claim object — is NOT written
+  here: the model walks the table `attestTrySites` that the translator regenerates from the body of `Keeper.Attest` (and
+  of every keeper method it passes the claim on to);
 * `TryAttestation`: walks the votes in order, sums the power of the oracles that are found, and at the first vote where
   the sum reaches `66 * total / 100` marks the attestation observed, advances the last observed nonce and hands
   **`claim`** (not the claim recorded in the attestation, not anybody else's) to the handler;
@@ -146,27 +149,79 @@ def attFor (key : AnyClaim → η) (s : AState η) (c : AnyClaim) : Att η :=
 /-- `att.Votes = append(att.Votes, oracle)` -/
 def withVote (a : Att η) (o : Nat) (c : AnyClaim) : Att η := { a with votes := a.votes ++ [(o, c)] }
 
-/-- `TryAttestation` is entered and its loop reaches the threshold -/
-def observedNow (s : AState η) (a : Att η) (c : AnyClaim) : Bool :=
-  !a.observed && c.nonce == s.lastObserved + 1 && crosses s (a.votes.map (·.1))
+/-- the attestation of this vote, with the vote appended, and the state after `SetAttestation` -/
+def votedAtt (key : AnyClaim → η) (s : AState η) (o : Nat) (c : AnyClaim) : Att η := withVote (attFor key s c) o c
 
-/-- the writes of an accepted vote; when `obs`, the handler is run on the claim object `c` of THIS voter -/
-def applyVote (s : AState η) (a : Att η) (o : Nat) (c : AnyClaim) (obs : Bool) : AState η :=
-  if obs then
-    { s with atts := setAtt (setAtt s.atts a) { a with observed := true }, lastObserved := c.nonce,
-             executed := s.executed ++ [{ claim := c, tallied := a.votes }],
-             pending := if c.deferred then setPending s.pending c.nonce c else s.pending,
-             lastByOracle := setAssoc s.lastByOracle o c.nonce }
-  else
-    { s with atts := setAtt s.atts a, lastByOracle := setAssoc s.lastByOracle o c.nonce }
+def afterVote (s : AState η) (a : Att η) : AState η := { s with atts := setAtt s.atts a }
+
+/-- the outer guard of `Attest`: `!att.Observed && claim.GetEventNonce() == GetLastObservedEventNonce()+1` -/
+def eligible (s : AState η) (a : Att η) (c : AnyClaim) : Bool := !a.observed && c.nonce == s.lastObserved + 1
+
+/-- store iteration order: attestations of one nonce come in the order of their hash -/
+def insertBy (le : η → η → Bool) (a : Att η) : List (Att η) → List (Att η)
+  | [] => [a]
+  | b :: r => if le a.hash b.hash then a :: b :: r else b :: insertBy le a r
+
+def sortAtts (le : η → η → Bool) (xs : List (Att η)) : List (Att η) := xs.foldr (insertBy le) []
+
+/-- the attestations a call site hands to `TryAttestation`, in order -/
+def candidates (le : η → η → Bool) (s : AState η) (a1 : Att η) (c : AnyClaim) : AttSel → List (Att η)
+  | .voted => [a1]
+  | .stored => sortAtts le (s.atts.filter fun a => a.nonce == c.nonce && !a.observed)
+  | .other => []
+
+/-- the claim object a call site hands to `TryAttestation` -/
+def handed (a : Att η) (c : AnyClaim) : ClaimSel → AnyClaim
+  | .voter => c
+  | .recorded => a.claim
+  | .other => c
+
+/-- the loop of `TryAttestation` over the candidates: the first open one whose votes reach the threshold -/
+def firstCrossing (s : AState η) : List (Att η) → Option (Att η)
+  | [] => none
+  | a :: r => if !a.observed && crosses s (a.votes.map (·.1)) then some a else firstCrossing s r
+
+/-- walk the call sites (REGENERATED table) in program order until one observes: the attestation whose votes crossed and
+the claim object that call site hands to the handler -/
+def trySites (le : η → η → Bool) (s : AState η) (a1 : Att η) (c : AnyClaim) : List TrySite → Option (Att η × AnyClaim)
+  | [] => none
+  | t :: r =>
+    match firstCrossing s (candidates le s a1 c t.att) with
+    | some a => some (a, handed a c t.claim)
+    | none => trySites le s a1 c r
+
+/-- the writes of `TryAttestation(att, claim)` once the threshold is reached: last observed nonce, the attestation marked
+observed and stored under the key of `claim` (`SetAttestation(claim.GetEventNonce(), claim.ClaimHash(), att)`), and the
+handler run on `claim` -/
+def observe (key : AnyClaim → η) (s : AState η) (a : Att η) (ch : AnyClaim) : AState η :=
+  { s with atts := setAtt s.atts { a with observed := true, nonce := ch.nonce, hash := key ch },
+           lastObserved := ch.nonce,
+           executed := s.executed ++ [{ claim := ch, tallied := a.votes }],
+           pending := if ch.deferred then setPending s.pending ch.nonce ch else s.pending }
+
+def setLast (s : AState η) (o : Nat) (n : Nat) : AState η := { s with lastByOracle := setAssoc s.lastByOracle o n }
+
+/-- what `Attest` does after the vote is stored, for a given table of call sites -/
+def hit (sites : List TrySite) (le : η → η → Bool) (s1 : AState η) (a1 : Att η) (c : AnyClaim) : Option (Att η × AnyClaim) :=
+  if eligible s1 a1 c then trySites le s1 a1 c sites else none
 
 /-- one `MsgClaim`: oracle `o` submits claim object `c`; `handlerPanics`: the handler panics if it is run now (the
 transaction fails and nothing is written) -/
-def vote (key : AnyClaim → η) (s : AState η) (o : Nat) (c : AnyClaim) (handlerPanics : Bool) : AState η × VoteResult :=
+def voteWith (sites : List TrySite) (key : AnyClaim → η) (le : η → η → Bool) (s : AState η) (o : Nat) (c : AnyClaim)
+    (handlerPanics : Bool) : AState η × VoteResult :=
   if !logicCheck s c then (s, .logicCheck)
   else if c.nonce != lastNonceOf s o + 1 then (s, .nonContiguous)
-  else if observedNow s (withVote (attFor key s c) o c) c && handlerPanics then (s, .panic)
-  else (applyVote s (withVote (attFor key s c) o c) o c (observedNow s (withVote (attFor key s c) o c) c), .ok)
+  else
+    match hit sites le (afterVote s (votedAtt key s o c)) (votedAtt key s o c) c with
+    | some (a, ch) =>
+      if handlerPanics then (s, .panic)
+      else (setLast (observe key (afterVote s (votedAtt key s o c)) a ch) o c.nonce, .ok)
+    | none => (setLast (afterVote s (votedAtt key s o c)) o c.nonce, .ok)
+
+/-- the call sites are the ones found in the source -/
+def vote (key : AnyClaim → η) (le : η → η → Bool) (s : AState η) (o : Nat) (c : AnyClaim) (handlerPanics : Bool) :
+    AState η × VoteResult :=
+  voteWith FxVerif.Gen.C03.attestTrySites key le s o c handlerPanics
 
 /-- operations: votes, and everything else that happens to the state the votes read -/
 inductive Op where
@@ -184,8 +239,8 @@ def execute (s : AState η) (n : Nat) (handlerFails : Bool) : AState η :=
   | none => s
   | some c => if handlerFails then s else { s with pending := s.pending.filter (fun p => p.1 != n), ran := s.ran ++ [c] }
 
-def step (key : AnyClaim → η) (s : AState η) : Op → AState η
-  | .vote o c hp => (vote key s o c hp).1
+def stepWith (sites : List TrySite) (key : AnyClaim → η) (le : η → η → Bool) (s : AState η) : Op → AState η
+  | .vote o c hp => (voteWith sites key le s o c hp).1
   | .setPower o none => { s with powers := s.powers.filter (fun p => p.1 != o) }
   | .setPower o (some p) => { s with powers := setAssoc s.powers o p }
   | .setTotal t => { s with total := t }
@@ -195,7 +250,12 @@ def step (key : AnyClaim → η) (s : AState η) : Op → AState η
   | .setOracleLast o (some n) => { s with lastByOracle := setAssoc s.lastByOracle o n }
   | .execute n f => execute s n f
 
-def run (key : AnyClaim → η) (s : AState η) (ops : List Op) : AState η := ops.foldl (step key) s
+def runWith (sites : List TrySite) (key : AnyClaim → η) (le : η → η → Bool) (s : AState η) (ops : List Op) : AState η :=
+  ops.foldl (stepWith sites key le) s
+
+/-- the state machine with the call sites found in the source; `le` is the order in which the store iterates hashes -/
+def run (key : AnyClaim → η) (le : η → η → Bool) (s : AState η) (ops : List Op) : AState η :=
+  runWith FxVerif.Gen.C03.attestTrySites key le s ops
 
 /-- the claims submitted by an operation list -/
 def Op.claims : List Op → List AnyClaim
